@@ -301,43 +301,50 @@ theorem decorate_length (f : GoVal → R Bytes) : ∀ (xs : List GoVal) (ds : Li
     subst h
     simp [decorate_length f xs r hr]
 
-theorem sortWith_ok_length {strict : Bool} {xs : List GoVal} {key w : GoVal}
-    (h : sortWith strict [.slice .any xs, key] = .ok w) : ∃ ys, w = .slice .any ys ∧ ys.length = xs.length := by
+theorem sortWith_ok_perm {strict : Bool} {xs : List GoVal} {key w : GoVal}
+    (h : sortWith strict [.slice .any xs, key] = .ok w) : ∃ ys, w = .slice .any ys ∧ ys.Perm xs := by
   unfold sortWith at h
   split at h
   · rename_i xs' heq
     simp only [List.cons.injEq, GoVal.slice.injEq, true_and, and_true] at heq
     obtain ⟨rfl, _⟩ := heq
+    obtain ⟨ys, hys, h⟩ := Res.bind_eq_ok h
     split at h
     · cases h
-    · simp only at h
-      split at h
-      · cases h
-      · simp only [Res.ok.injEq] at h
-        exact ⟨_, h.symm, List.length_mergeSort _⟩
+    · simp only [Res.ok.injEq] at h
+      refine ⟨ys, h.symm, ?_⟩
+      rw [(sortM_eq xs).1 ys hys]
+      exact sortF_perm xs
   · rename_i xs' key' _ heq
     simp only [List.cons.injEq, GoVal.slice.injEq, true_and, and_true] at heq
     obtain ⟨rfl, _⟩ := heq
     obtain ⟨k, _, h⟩ := Res.bind_eq_ok h
+    obtain ⟨ys, hys, h⟩ := Res.bind_eq_ok h
     split at h
     · cases h
-    · simp only at h
-      split at h
-      · cases h
-      · simp only [Res.ok.injEq] at h
-        exact ⟨_, h.symm, List.length_mergeSort _⟩
+    · simp only [Res.ok.injEq] at h
+      refine ⟨ys, h.symm, ?_⟩
+      rw [(sortByM_eq k xs).1 ys hys]
+      exact sortByF_perm k xs
   · cases h
+
+theorem sortNaturalWith_ok_perm {strict : Bool} {xs : List GoVal} {key w : GoVal}
+    (h : sortNaturalWith strict [.slice .any xs, key] = .ok w) : ∃ ys, w = .slice .any ys ∧ ys.Perm xs := by
+  simp only [sortNaturalWith] at h
+  obtain ⟨f, _, h⟩ := Res.bind_eq_ok h
+  obtain ⟨ys, hys, h⟩ := Res.bind_eq_ok h
+  simp only [Res.ok.injEq] at h
+  exact ⟨ys, h.symm, sortNatM_perm hys⟩
+
+theorem sortWith_ok_length {strict : Bool} {xs : List GoVal} {key w : GoVal}
+    (h : sortWith strict [.slice .any xs, key] = .ok w) : ∃ ys, w = .slice .any ys ∧ ys.length = xs.length := by
+  obtain ⟨ys, h1, h2⟩ := sortWith_ok_perm h
+  exact ⟨ys, h1, h2.length_eq⟩
 
 theorem sortNaturalWith_ok_length {strict : Bool} {xs : List GoVal} {key w : GoVal}
     (h : sortNaturalWith strict [.slice .any xs, key] = .ok w) : ∃ ys, w = .slice .any ys ∧ ys.length = xs.length := by
-  simp only [sortNaturalWith] at h
-  obtain ⟨f, _, h⟩ := Res.bind_eq_ok h
-  obtain ⟨ds, hds, h⟩ := Res.bind_eq_ok h
-  split at h
-  · cases h
-  · simp only [Res.ok.injEq] at h
-    refine ⟨_, h.symm, ?_⟩
-    rw [List.length_map, sortTexts, List.length_mergeSort, decorate_length f _ _ hds]
+  obtain ⟨ys, h1, h2⟩ := sortNaturalWith_ok_perm h
+  exact ⟨ys, h1, h2.length_eq⟩
 
 theorem sortedList_length {strict natural : Bool} {xs ys : List GoVal} {key : GoVal}
     (h : sortedList strict natural xs key = .ok ys) : ys.length = xs.length := by
@@ -612,57 +619,6 @@ theorem convertAnys_refines {st : Store} {v : HVal} (hw : HVal.wf st v) :
 
 
 /-! ### sort: the copy is sorted into a permutation -/
-
-theorem decorate_snd (f : GoVal → R Bytes) : ∀ (xs : List GoVal) (ds : List (Bytes × GoVal)),
-    decorate f xs = .ok ds → ds.map (·.2) = xs
-  | [], ds, h => by simp only [decorate, Res.ok.injEq] at h; subst h; rfl
-  | x :: xs, ds, h => by
-    simp only [decorate] at h
-    obtain ⟨k, _, h⟩ := Res.bind_eq_ok h
-    obtain ⟨r, hr, h⟩ := Res.bind_eq_ok h
-    simp only [Res.ok.injEq] at h
-    subst h
-    simp [decorate_snd f xs r hr]
-
-theorem sortWith_ok_perm {strict : Bool} {xs : List GoVal} {key w : GoVal}
-    (h : sortWith strict [.slice .any xs, key] = .ok w) : ∃ ys, w = .slice .any ys ∧ ys.Perm xs := by
-  unfold sortWith at h
-  split at h
-  · rename_i xs' heq
-    simp only [List.cons.injEq, GoVal.slice.injEq, true_and, and_true] at heq
-    obtain ⟨rfl, _⟩ := heq
-    split at h
-    · cases h
-    · simp only at h
-      split at h
-      · cases h
-      · simp only [Res.ok.injEq] at h
-        exact ⟨_, h.symm, List.mergeSort_perm _ _⟩
-  · rename_i xs' key' _ heq
-    simp only [List.cons.injEq, GoVal.slice.injEq, true_and, and_true] at heq
-    obtain ⟨rfl, _⟩ := heq
-    obtain ⟨k, _, h⟩ := Res.bind_eq_ok h
-    split at h
-    · cases h
-    · simp only at h
-      split at h
-      · cases h
-      · simp only [Res.ok.injEq] at h
-        exact ⟨_, h.symm, List.mergeSort_perm _ _⟩
-  · cases h
-
-theorem sortNaturalWith_ok_perm {strict : Bool} {xs : List GoVal} {key w : GoVal}
-    (h : sortNaturalWith strict [.slice .any xs, key] = .ok w) : ∃ ys, w = .slice .any ys ∧ ys.Perm xs := by
-  simp only [sortNaturalWith] at h
-  obtain ⟨f, _, h⟩ := Res.bind_eq_ok h
-  obtain ⟨ds, hds, h⟩ := Res.bind_eq_ok h
-  split at h
-  · cases h
-  · simp only [Res.ok.injEq] at h
-    refine ⟨_, h.symm, ?_⟩
-    have hp : (sortTexts ds).Perm ds := List.mergeSort_perm _ _
-    have := hp.map (·.2)
-    rwa [decorate_snd f _ _ hds] at this
 
 theorem sortedList_perm {strict natural : Bool} {xs ys : List GoVal} {key : GoVal}
     (h : sortedList strict natural xs key = .ok ys) : ys.Perm xs := by
